@@ -70,7 +70,7 @@ def do_load(path, mode):
     return rules, transforms
 
 
-def do_classify(handle, txn, rows):
+def do_classify(handle, txn, rows, live=False):
     from tally import merchant_utils as mu
     rules, transforms = handle
     f = txn.get('field')
@@ -80,13 +80,13 @@ def do_classify(handle, txn, rows):
     try:
         m, c, s, info = mu.normalize_merchant(txn.get('description', ''), rules, amount=txn.get('amount'), txn_date=d,
                                               field=copy.deepcopy(f) if f else None, data_source=txn.get('source'), transforms=transforms,
-                                              location=txn.get('location'), data_sources=O.copy_rows(rows) if rows is not None else None)
+                                              location=txn.get('location'), data_sources=(rows if live else O.copy_rows(rows)) if rows is not None else None)
         return norm_result(m, c, s, info)
     except Exception as e:
         return {'exception': type(e).__name__ + ': ' + str(e)[:120]}
 
 
-def do_parse_csv(handle, txn, rows, tmpdir):
+def do_parse_csv(handle, txn, rows, tmpdir, live=False):
     from tally.format_parser import parse_format_string
     from tally.parsers import parse_generic_csv
     rules, transforms = handle
@@ -99,7 +99,7 @@ def do_parse_csv(handle, txn, rows, tmpdir):
     spec = parse_format_string('{date:%Y-%m-%d},{description},{memo},{code},{amount}')
     try:
         out = parse_generic_csv(p, spec, rules, source_name=txn.get('source') or 'CSV', transforms=transforms,
-                                data_sources=O.copy_rows(rows) if rows is not None else None)
+                                data_sources=(rows if live else O.copy_rows(rows)) if rows is not None else None)
     except Exception as e:
         return {'exception': type(e).__name__ + ': ' + str(e)[:120]}
     finally:
@@ -326,6 +326,10 @@ def make_pool(rnd, tmp, k):
         # a top-level variable that can be evaluated for some transactions only (those that have custom fields)
         a.variables = list(a.variables) + [('has_memo', 'field.memo != "zz-never"')]
         a.rules.insert(rnd.randint(0, len(a.rules)), R.Rule('VarBait', 'has_memo and amount > -1e9', 'VarBaitCat', 'x', tags=['varbait']))
+    if rnd.random() < .5:
+        # a winning rule whose field: values ARE supplemental rows (with their date cells): classification hands them out, it does not rewrite them
+        a.rules.insert(rnd.randint(0, min(2, len(a.rules))), R.Rule('RowFields', rnd.choice(['contains("NETFLIX")', 'contains("UBER")', 'amount > 0']), 'RowFieldsCat', 'x',
+                                                                  fields=[('ev', '[r for r in events]'), ('first', 'events2[1]'), ('n', 'len(events)')]))
     b = near_duplicate(a, rnd)
     for r in b.rules:
         if r.name.startswith('Bait'):
@@ -429,7 +433,7 @@ def run_sequence(rec, pool, pr, rnd, nops, tmp, fresh_rate):
             rules_snap, rows_live = typed_snapshot(handle[0]), copy.deepcopy(rows_here)
             rows_snap = typed_snapshot(rows_live)
             cached_before = len(ep._expression_cache)
-            got = do_classify(handle, txn, rows_live) if op == 'classify' else do_parse_csv(handle, txn, rows_live, tmp)
+            got = do_classify(handle, txn, rows_live, live=True) if op == 'classify' else do_parse_csv(handle, txn, rows_live, tmp, live=True)      # the very objects that are snapshotted
             rec.count('immutability_snapshots')
             if typed_snapshot(handle[0]) != rules_snap or typed_snapshot(rows_live) != rows_snap:
                 rec.violation('classify-mutates-rules-or-rows', f'{op} after load {cur}: rule tuples or supplemental rows changed', dict(case_base, txn=O.jtxn(txn)))
